@@ -417,15 +417,23 @@ def hexbytes(s):
     return b'' if s in ('-', '') else bytes.fromhex(s)
 
 
+MATCH_MODE = {'short': 0, 'full': 0}
+
+
 def model_matches(real, ms, ma, mb):
     """real file vs the model under the two admissible MPI read behaviours.
     ms = model with short counts; ma/mb = model with full counts and junk 0xAA / 0x55 past EOF:
     positions where ma and mb differ hold unspecified bytes."""
     if real == ms:
+        if ms != ma:
+            MATCH_MODE['short'] += 1
         return True
     if len(real) != len(ma) or len(ma) != len(mb):
         return False
-    return all(ma[i] != mb[i] or real[i] == ma[i] for i in range(len(real)))
+    okf = all(ma[i] != mb[i] or real[i] == ma[i] for i in range(len(real)))
+    if okf:
+        MATCH_MODE['full'] += 1
+    return okf
 
 
 def run_driver(lines):
@@ -549,6 +557,7 @@ def run_check(tier, seed):
             return V.finish()
         move_unit = int(mm[0])
         V.cov['MOVE_UNIT'] = move_unit
+        MATCH_MODE['short'] = MATCH_MODE['full'] = 0
         if not (1 <= move_unit <= 2147483647):
             tie_problems.append('MOVE_UNIT=%d violates the hypothesis 1 <= unit <= INT_MAX of moveBlock_correct / bufcount_fits_int' % move_unit)
         src2 = re.sub(r'^[ \t]*#[ \t]*define[ \t]+MOVE_UNIT[ \t]+\d+[ \t]*$', '#define MOVE_UNIT verif_move_unit', src, flags=re.M)
@@ -640,6 +649,9 @@ def run_check(tier, seed):
                 for k in sc.kinds:
                     bump('api:' + k)
                 bump('api:nprocs=%d' % np_)
+                if res == 'skipped':
+                    bump('api:skipped-after-crashes')
+                    continue
                 if res is None:
                     prop_fail.append(('api-crash-or-hang', 'harness crashed or hung on a valid redefinition scenario (%d ranks)' % np_,
                                       dict(nprocs=np_, script=sc.ops)))
@@ -695,6 +707,7 @@ def run_check(tier, seed):
         V.cov['distribution'] = dist
         V.cov['samples'] = samples
         V.cov['api_scenarios'] = api_scen
+        V.cov['mpi_read_mode_observed_on_short_files'] = dict(MATCH_MODE)
         V.cov['enddef_replays'] = len(ed_lines)
 
         # ---- S5 decide
@@ -735,7 +748,7 @@ def run_scenarios(aexe, wd, np_, scen, batch):
         script = os.path.join(wd, 'api_%d.txt' % np_)
         open(script, 'w').write('\n'.join(lines) + '\n')
         outp = os.path.join(wd, 'api_%d.out' % np_)
-        rc, so, se = mpirun(np_, [aexe, script, os.path.join(wd, 'api_%d.nc' % np_), outp], timeout=200)
+        rc, so, se = mpirun(np_, [aexe, script, os.path.join(wd, 'api_%d.nc' % np_), outp], timeout=120)
         if rc != 0:
             return None
         allres = [parse_out('%s.%d' % (outp, r)) for r in range(np_)]
@@ -743,13 +756,17 @@ def run_scenarios(aexe, wd, np_, scen, batch):
         for k, (sc, sp) in enumerate(scen):
             res.append([{i + 1: allres[r].get(offs[k] + i + 1) for i in range(len(sc.ops))} for r in range(np_)])
         return res
-    res = []
+    res, nbad = [], 0
     for k, (sc, sp) in enumerate(scen):
+        if nbad >= 3:
+            res.append('skipped')        # enough crashing/hanging scenarios to report; keep the run time bounded
+            continue
         script = os.path.join(wd, 'api_%d_%d.txt' % (np_, k))
         open(script, 'w').write(sc.text())
         outp = os.path.join(wd, 'api_%d_%d.out' % (np_, k))
-        rc, so, se = mpirun(np_, [aexe, script, os.path.join(wd, 'api_%d_%d.nc' % (np_, k)), outp], timeout=60)
+        rc, so, se = mpirun(np_, [aexe, script, os.path.join(wd, 'api_%d_%d.nc' % (np_, k)), outp], timeout=30)
         res.append([parse_out('%s.%d' % (outp, r)) for r in range(np_)] if rc == 0 else None)
+        nbad += (rc != 0)
     return res
 
 
